@@ -14,6 +14,8 @@ from ..index import AnalysisError, ClassInfo, FunctionInfo, call_name, norm, nor
 from .attrs import guarded_by_hasattr, self_loads
 from .common import enclosing, fctx, in_body, is_name, method_calls, stmts
 
+from .groups import check_group_trace
+
 LEVEL = "other"
 EXPLANATION = (
     "Attribute-definedness over the class hierarchy (MRO of Data_K and its subclasses, stores via self.x=, setattr, "
@@ -198,16 +200,14 @@ def run(ctx) -> None:
     dy = idx.function("wannierberri/calculators/dynamic.py", "DynamicCalculator.__call__")
     for f in (st, tb):
         r4.instance(f.short)
-        t = norm(f.node).replace(" ", "")
-        ok = "inn=np.arange(n[0],n[1])" in t and "out=np.concatenate((np.arange(0,n[0]),np.arange(n[1],NB)))" in t and \
-            "formula.trace(ik,inn,out)" in t
-        r4.check(ok, f"{f.qualname}: trace over inn = the whole group [n0, n1), out = its complement", f, f.node,
-                 f"{f.qualname} no longer traces the formula over exactly one whole degenerate group (inn = arange(n0, n1), out = the "
-                 f"rest): a partial trace inside a degenerate subspace depends on the arbitrary eigenvector basis chosen there",
-                 stmt="trace over whole group")
-        r4.check("degen_thresh=self.degen_thresh" in t and "degen_Kramers=self.degen_Kramers" in t, f"{f.qualname}: groups come from the "
-                 f"calculator's degeneracy settings", f, f.node, f"{f.qualname} does not group bands with its degen_thresh/degen_Kramers",
-                 stmt="group settings")
+        check_group_trace(r4, idx, f, allow_sea=True)
+        gcall = [c for c in ast.walk(f.node) if isinstance(c, ast.Call) and isinstance(c.func, ast.Attribute)
+                 and c.func.attr in ("get_bands_in_range_groups", "weights_all_band_groups")]
+        r4.expect(len(gcall) >= 1, f"{f.qualname}: grouping call located", f, f.node, f"{f.qualname}: the call that groups the bands was not found")
+        for c in gcall:
+            kw = {k.arg: norm(k.value) for k in c.keywords}
+            r4.check(kw.get("degen_thresh") == "self.degen_thresh" and kw.get("degen_Kramers") == "self.degen_Kramers", f"{f.qualname}: groups come from the "
+                     f"calculator's degeneracy settings", f, c, f"{f.qualname} does not group bands with its degen_thresh/degen_Kramers", stmt="group settings")
     r4.instance(dy.short)
     t = norm(dy.node).replace(" ", "")
     r4.check("formula.trace_ln(ik,np.arange(*pair[0]),np.arange(*pair[1]))" in t and "fromibm,Emindegen_groups.items()foribn,Enindegen_groups.items()" in t.replace("for", "from", 1) or
